@@ -157,6 +157,8 @@ def generate(root):
             parts = parts[:-1]
         mod = ".".join(parts)
         tree = ast.parse(path.read_text())
+        from .canon import canonicalise
+        canonicalise(tree)
 
         def visit(body, prefix):
             for st in body:
